@@ -59,6 +59,29 @@ def run(ctx: Ctx):
            and f"{LV} = {LV} / (~{PM}).sum(2).clamp_min(1)" in txt,
            "the per-prefix loss is not (sum over non-padding targets) / max(number of targets, 1)", rel, f.line)
     R_enum.g8_dispatch(pkg, res, col, f, "reduction", "S2", members=["mean", "sum", "none"], allow_else=0)
+    # mean reduction: per-sequence average over its non-padding prefixes, i.e. both partial sums run over the
+    # *sequence* axis of the (T, N) / (N, T) layout selected by batch_first, before the batch mean
+    from sa.astutil import eval_under_flag, guards_of, parent_map
+    rdf = ReachingDefs(f.node)
+    pmf = parent_map(f.node)
+    axes = []
+    for c in own_calls(f.node):
+        if not (isinstance(c.func, ast.Attribute) and c.func.attr in ("sum", "mean") and c.args):
+            continue
+        if not any(isinstance(t, ast.Compare) and pol and "'mean'" in u(t) for t, pol in guards_of(pmf, c)):
+            continue
+        a = c.args[0]
+        axes.append((c, eval_under_flag(a, "batch_first", True, rdf), eval_under_flag(a, "batch_first", False, rdf)))
+    if len(axes) < 2:
+        raise AnalysisError("C03: the mean branch of the OCD loss no longer reduces over a layout-dependent axis twice")
+    for c, vt, vf in axes:
+        if vt is None or vf is None:
+            raise AnalysisError(f"C03: cannot evaluate the reduction axis of `{u(c)[:60]}` under batch_first")
+    col.ob("G14", "S2", f"{where}::mean-reduces-over-sequence-axis", all((vt, vf) == (1, 0) for _, vt, vf in axes),
+           f"the mean reduction sums over axis {[(vt, vf) for _, vt, vf in axes]} (batch_first=True, False); the loss "
+           f"and the padding mask are laid out like the targets, (N, T) when batch_first else (T, N), so the "
+           f"per-sequence average over non-padding prefixes needs axis (1, 0): otherwise prefixes are averaged across "
+           f"the batch and short sequences are mis-weighted", rel, axes[0][0].lineno, sample=[u(c)[:80] for c, _, _ in axes])
     # in optimal_completion: targets buffer filled with `padding`, scattered by count mask
     rdo = ReachingDefs(oc.node)
     fulls = [c for c in own_calls(oc.node) if call_name(c) == "torch.full" and len(c.args) >= 2]
@@ -99,8 +122,13 @@ def run(ctx: Ctx):
 
 def _mutants():
     from selftest.mutate import Mutant as M
+    _extra = [
+        M("mean-over-batch-axis", "_string.py", "seq_dim = 1 if batch_first else 0", "seq_dim = 0 if batch_first else 1", "mean-reduces-over-sequence-axis"),
+        M("mean-denominator-fixed-axis", "_string.py", "(~padding_mask).any(2).sum(seq_dim)", "(~padding_mask).any(2).sum(0)", "G"),
+        M("twin:axis-by-int", "_string.py", "seq_dim = 1 if batch_first else 0", "seq_dim = int(batch_first)", "", twin=True),
+    ]
     S = "_string.py"
-    return [
+    return _extra + [
         M("loss-includes-last-prefix", S, "padding=ignore_index, exclude_last=True, warn=warn)", "padding=ignore_index, exclude_last=False, warn=warn)", "optimal_completion-binding"),
         M("padding-default-used", S, "padding=ignore_index, exclude_last=True, warn=warn)", "exclude_last=True, warn=warn)", "G"),
         M("mask-compares-other-constant", S, "padding_mask = optimals == ignore_index", "padding_mask = optimals == config.INDEX_PAD_VALUE", "one-padding-sentinel"),
